@@ -369,7 +369,14 @@ struct Gen {
 			size_t run = 1;
 			while (i + run < stop && all[i + run] == all[i]) run++;
 			bool use = rle_mode == 0 || (rle_mode >= 2 && (pbt::mix64(rs + i) & 1));
-			if (use && all[i] == 0 && run >= 3) {
+			if (use && all[i] == 0 && run >= 3 && i > 0 && all[i - 1] == 0 && rle_mode == 3 && (pbt::mix64(rs + i * 7) & 2)) {
+				// "repeat previous" applied to a zero length (legal; typically right after a 17/18 zero run, which no encoder emits)
+				size_t r = 3 + pbt::mix64(rs + i * 11) % (std::min<size_t>(run, 6) - 2);
+				cl.push_back({16, (uint8_t) (r - 3)});
+				if (!cl.empty() && cl.size() >= 2 && cl[cl.size() - 2].sym >= 17) S.labels.insert("repeat16-directly-after-zero-run");
+				if (i < (size_t) hlit && i + r > (size_t) hlit) S.labels.insert("repeat-crosses-litlen/dist-boundary");
+				i += r;
+			} else if (use && all[i] == 0 && run >= 3) {
 				size_t r = std::min<size_t>(run, 138);
 				if (rle_mode >= 2) r = 3 + pbt::mix64(rs + i * 3) % (r - 2);
 				if (r >= 11) cl.push_back({18, (uint8_t) (r - 11)}); else cl.push_back({17, (uint8_t) (r - 3)});
